@@ -141,6 +141,8 @@ func init() {
 			Run: func(P *Program, R *Report) { randomizeRule(P, R) }},
 		Rule{ID: "C05.g", Explain: "valid signatures verify: CLSignature.Verify rejects for the specified reasons only - e outside its interval, e not prime, an error from RepresentToPublicKey or ModPow, a nil component - and otherwise returns the outcome of the equation; any other rejecting branch (e.g. a size limit on v, which randomisation legitimately enlarges) is reported.",
 			Run: func(P *Program, R *Report) { onlySpecifiedRejectionsRule(P, R) }},
+		Rule{ID: "C05.h", Explain: "aliasing discipline: signing, verifying and randomising leave the signature and the keys they were given unchanged (Randomize returns a copy) - no function mutates in place a big.Int it reached through gabi.CLSignature / gabikeys.PublicKey / gabikeys.PrivateKey (math/big mutators write their receiver), except the tabled merge/refresh functions.",
+			Run: func(P *Program, R *Report) { inPlaceDisciplineRule(P, R, "C05.h", "gabi.CLSignature", "gabikeys.PublicKey", "gabikeys.PrivateKey") }},
 		Rule{ID: "C05.f", Explain: "RepresentToBases hashes oversized messages exactly like the prover and verifier (C01.f).",
 			Run: func(P *Program, R *Report) { oversizedHashRuleAs(P, R, "C05.f") }},
 	)
